@@ -218,8 +218,20 @@ func parseSnapshot(name string) (uint64, error) {
 }
 
 func (tst *tsTable) TakeFileSnapshot(dst string) (success bool, err error) {
+	// The core snapshot and the secondary-index snapshots must describe the same
+	// published state. When the copy is opened, sidx parts are loaded by part ID
+	// against the parts named by the core manifest, so a flush or merge published
+	// between the two pins leaves the copy either with index parts its manifest
+	// does not name (they are deleted on open and the ordered index is lost) or
+	// with index entries whose spans are not in the copy. Every publication goes
+	// through commitSnapshotTransaction, which holds snapshotPublicationMu
+	// exclusively, so take it shared (as queries that need both views do), pin the
+	// core snapshot and hard-link the secondary indexes before releasing it.
+	// Linking the (larger) core parts happens afterwards, protected by the pin.
+	tst.snapshotPublicationMu.RLock()
 	snapshot := tst.currentSnapshot()
 	if snapshot == nil {
+		tst.snapshotPublicationMu.RUnlock()
 		return false, storage.ErrNoCurrentSnapshot
 	}
 	defer snapshot.decRef()
@@ -229,12 +241,8 @@ func (tst *tsTable) TakeFileSnapshot(dst string) (success bool, err error) {
 		}
 	}()
 
-	for k, v := range tst.sidxMap {
-		indexDir := filepath.Join(dst, sidxDirName, k)
-		tst.fileSystem.MkdirPanicIfExist(indexDir, storage.DirPerm)
-		if sidxErr := v.TakeFileSnapshot(indexDir); sidxErr != nil {
-			return false, fmt.Errorf("failed to take file snapshot for index, %s: %w", k, sidxErr)
-		}
+	if err = tst.takeSidxFileSnapshotsLocked(dst); err != nil {
+		return false, err
 	}
 
 	hasDiskParts := false
@@ -259,6 +267,20 @@ func (tst *tsTable) TakeFileSnapshot(dst string) (success bool, err error) {
 	parent := filepath.Dir(dst)
 	tst.fileSystem.SyncPath(parent)
 	return true, nil
+}
+
+// takeSidxFileSnapshotsLocked hard-links every secondary index into dst. It must be
+// called with snapshotPublicationMu read-locked and releases it before returning.
+func (tst *tsTable) takeSidxFileSnapshotsLocked(dst string) error {
+	defer tst.snapshotPublicationMu.RUnlock()
+	for k, v := range tst.sidxMap {
+		indexDir := filepath.Join(dst, sidxDirName, k)
+		tst.fileSystem.MkdirPanicIfExist(indexDir, storage.DirPerm)
+		if sidxErr := v.TakeFileSnapshot(indexDir); sidxErr != nil {
+			return fmt.Errorf("failed to take file snapshot for index, %s: %w", k, sidxErr)
+		}
+	}
+	return nil
 }
 
 func (tst *tsTable) createMetadata(dst string, snapshot *snapshot) {
